@@ -119,24 +119,57 @@ def run_batch(prop, tier, base_seed, n_runs, jobs_n, per_run_timeout=60, wall_bu
     lost = 0
     t0 = time.time()
     ctx = mp.get_context("fork")
-    with cf.ProcessPoolExecutor(max_workers=jobs_n, mp_context=ctx, initializer=_init_worker) as ex:
-        futs = {ex.submit(run_chunk, (prop, c, per_run_timeout)): c for c in chunks}
-        try:
-            for f in cf.as_completed(futs, timeout=wall_budget):
-                try:
-                    results.extend(f.result())
-                except Exception:
-                    lost += len(futs[f])
-        except cf.TimeoutError:
-            for f, c in futs.items():
-                if not f.done():
-                    lost += len(c)
-                    f.cancel()
-            for p in list(getattr(ex, "_processes", {}).values()):
-                try:
-                    os.kill(p.pid, signal.SIGKILL)
-                except Exception:
-                    pass
+    # a worker that dies (faulthandler's hard exit on a run that ignores the alarm, OOM kill) breaks the whole
+    # pool.  The jobs that had not finished are then re-run one by one in small waves in fresh pools; a job
+    # that is in flight in two broken waves is given up, so a single bad run costs a handful of runs, not
+    # the rest of the batch.
+    deadline = None if wall_budget is None else t0 + wall_budget
+
+    def run_wave(items):
+        """items: list of (chunk, strikes); returns unfinished items; extends results"""
+        nonlocal lost
+        unfinished = []
+        with cf.ProcessPoolExecutor(max_workers=jobs_n, mp_context=ctx, initializer=_init_worker) as ex:
+            futs = {ex.submit(run_chunk, (prop, c, per_run_timeout)): (c, n) for c, n in items}
+            try:
+                left = None if deadline is None else max(1.0, deadline - time.time())
+                for f in cf.as_completed(futs, timeout=left):
+                    c, n = futs[f]
+                    try:
+                        results.extend(f.result())
+                    except Exception:
+                        unfinished.append((c, n))
+            except cf.TimeoutError:
+                for f, (c, n) in futs.items():
+                    if not f.done():
+                        lost += len(c)
+                        f.cancel()
+                for p in list(getattr(ex, "_processes", {}).values()):
+                    try:
+                        os.kill(p.pid, signal.SIGKILL)
+                    except Exception:
+                        pass
+                return []
+        return unfinished
+
+    unfinished = run_wave([(c, 0) for c in chunks])
+    singles = [([j], 0) for c, _ in unfinished for j in c]
+    singles.sort(key=lambda it: it[0][0][0])
+    wave = max(2, jobs_n * 2)
+    restarts = 0
+    while singles and restarts < 400:
+        head, singles = singles[:wave], singles[wave:]
+        back = run_wave(head)
+        if back:
+            restarts += 1
+            again = []
+            for c, n in back:
+                if n + 1 >= 2:
+                    lost += 1
+                else:
+                    again.append((c, n + 1))
+            singles = again + singles
+    lost += sum(len(c) for c, _ in singles)
     results.sort(key=lambda r: r["i"])
     return results, lost, time.time() - t0
 
